@@ -23,6 +23,23 @@ pub mod rand {
         }
     }
 
+    pub trait Rng {
+        fn gen_range(&mut self, range: core::ops::Range<usize>) -> (r: usize)
+            requires
+                range.start < range.end,
+            ensures
+                range.start <= r < range.end,
+        ;
+    }
+
+    impl Rng for ThreadRng {
+        // Assumption: the value lies in the requested range; nothing else.
+        #[verifier::external_body]
+        fn gen_range(&mut self, range: core::ops::Range<usize>) -> (r: usize) {
+            unimplemented!()
+        }
+    }
+
     #[verifier::external_body]
     pub fn thread_rng() -> ThreadRng {
         unimplemented!()
